@@ -15,8 +15,6 @@ Proof.
   intros W B H. apply RS_valid_len in H. unfold RS_getters. pose proof W as W'. std_safe2 W.
   intros _. apply ndp_options_at_ok. exact W'.
 Qed.
-Lemma RS_spec v : wf v -> bytes_ok (arr v) -> RS_IsValid v = Ok true -> getters_spec [] RS_getters RS_specs v.
-Proof. intros W B H. apply RS_valid_len in H. unfold RS_getters, RS_specs. std_spec2 W B L. Qed.
 
 (* ---------------- ICMP4Redirect ---------------- *)
 Lemma R4_valid_facts v : R4_IsValid v = Ok true ->
